@@ -1,6 +1,6 @@
 (* C13 property theorems: statements only, each closed by [exact]. *)
 From Boltons Require Import Lib.Prelude Spec.C13_Spec Model.C13_Model
-     Model.C13_Text Gen.C13_Gen Proofs.C13_Text
+     Model.C13_Text Model.C13_Names Gen.C13_Gen Proofs.C13_Text Proofs.C13_Names
      Check.C13_Check Proofs.C13_Bind Proofs.C13_Shape Proofs.C13_Sig Proofs.C13_Main Proofs.C13_Holds Proofs.C13_Stack Proofs.C13_Transfer Proofs.C13_Tie.
 
 (* wraps(f)(wrapper): the same signature (parameters, kinds, defaults on the same
@@ -249,6 +249,33 @@ Print Assumptions C13_def_text_is_signature.
 Example C13_ex_render_ident : forall n, ident (gen_render n) = true.
 Proof. exact gen_render_ident. Qed.
 
+(* ---- the names chosen for the generated source (fixes b766f76, ec9ad8a, d49e931) --------------------- *)
+(* the wrapper is bound under a name that no parameter, and not the function's own name, uses:
+   the loop  while call_name in (...): call_name += '_'  ends on a free name *)
+Theorem C13_call_name_fresh : forall taken, ~ In (pick_call_name taken) taken.
+Proof. exact pick_call_name_fresh. Qed.
+Print Assumptions C13_call_name_fresh.
+
+(* the name the def statement is compiled under, for ANY __name__ (any code points): a valid
+   identifier, no keyword, stored unchanged by the parser (NFKC), and bound to nothing in
+   execdict - given the facts about Unicode's XID classes, NFKC and the keyword list that
+   are listed as hypotheses (the keyword fact is re-checked against keyword.kwlist on every
+   run: C13_keywords_tie) *)
+Theorem C13_def_name_ok : forall (xid_start xid_continue : N -> bool) (nfkc : text -> text) (iskeyword : text -> bool),
+  xid_start UNDERSCORE = true ->
+  (forall c, xid_start c = true -> xid_continue c = true) ->
+  (forall t, forallb xid_continue t = true -> forallb xid_continue (nfkc t) = true) ->
+  (forall t, nfkc (nfkc t) = nfkc t) ->
+  (forall t, nfkc (UNDERSCORE :: t) = UNDERSCORE :: nfkc t) ->
+  (forall t, nfkc (t ++ [UNDERSCORE]) = nfkc t ++ [UNDERSCORE]) ->
+  (forall t, iskeyword (UNDERSCORE :: t) = false) ->
+  (forall t, iskeyword (t ++ [UNDERSCORE]) = false) ->
+  forall fname keys,
+    let n := pick_def_name xid_start xid_continue nfkc iskeyword fname keys in
+    isidentifier xid_start xid_continue n = true /\ iskeyword n = false /\ nfkc n = n /\ ~ In n keys.
+Proof. exact pick_def_name_ok. Qed.
+Print Assumptions C13_def_name_ok.
+
 (* ---- obligations over data regenerated from /repo on every run (Gen/C13_Gen.v) ------------------ *)
 (* Model.C13_Text.scan is, extensionally on every string of length <= 5 over
    { * , blank a tab }, what the real FunctionBuilder._KWONLY_MARKER.sub('', s) did *)
@@ -265,6 +292,17 @@ Proof. exact text_tie. Qed.
 Print Assumptions C13_text_tie.
 Example C13_text_tie_nonvacuous : (36 <=? N.of_nat (length gen_texts))%N = true.
 Proof. exact text_shapes_many. Qed.
+
+(* for 117 ASCII (function name, parameter names) configurations the model picks exactly the
+   def name and the call name found in the __source__ of real wraps results *)
+Theorem C13_names_tie : forallb names_row_ok gen_names = true /\ (100 <=? N.of_nat (length gen_names))%N = true.
+Proof. exact names_tie. Qed.
+Print Assumptions C13_names_tie.
+
+(* no keyword of keyword.kwlist begins or ends with an underscore *)
+Theorem C13_keywords_tie : forallb kw_underscore_free gen_keywords = true /\ (30 <=? N.of_nat (length gen_keywords))%N = true.
+Proof. exact keywords_tie. Qed.
+Print Assumptions C13_keywords_tie.
 
 (* ---- the hypotheses are inhabited by non-trivial states ------------------------------------------ *)
 Example C13_ex_wf_func : wf_func ex_f.
